@@ -428,9 +428,12 @@ class Check:
             'Python generators/extractors in /verif/checks and /verif/lib; Rust harness harness/libdrive',
         ]
         REPLAY.mkdir(parents=True, exist_ok=True)
-        for old in REPLAY.glob(f'{prop}-*.json'):      # replay files of earlier runs would only confuse
-            old.unlink()
         self.findings = {f['id']: f for f in known_findings(prop)}
+
+    def clear_replays(self):
+        """called by ./check before a run (not before a replay): replay files of earlier runs would only confuse"""
+        for old in REPLAY.glob(f'{self.prop}-*.json'):
+            old.unlink()
 
     def count(self, key, n=1):
         self.counters[key] = self.counters.get(key, 0) + n
